@@ -72,7 +72,9 @@ func (e *Exec) unknownCall(st *State, what string, resType types.Type, pos token
 	e.Abstracted[what] = true
 	e.havocAll(st, what, pos)
 	e.bumpAlloc(st)
-	return e.freshVal(st, "ret", resType)
+	res := e.freshVal(st, "ret", resType)
+	e.assumeAllocatedVal(st, res, resType)
+	return res
 }
 
 func (e *Exec) bumpAlloc(st *State) {
@@ -296,6 +298,7 @@ func (e *Exec) atTarget(fr *frame, st *State, h *hctx, fn *ssa.Function, args []
 	saveMP := e.mayPanic
 	e.mayPanic = h.mayPanic
 	res, out := e.runFunc(fn, args, nil, st, h.con)
+	h.retPaths = e.lastRetPaths
 	e.mayPanic = saveMP
 	e.fstack = e.fstack[:len(e.fstack)-1]
 	e.spec = saveSpec
@@ -334,7 +337,10 @@ func (e *Exec) applyHavoc(st *State, h *hctx, fn *ssa.Function, resType types.Ty
 				continue
 			}
 			if strings.HasPrefix(l.key, "G|") {
-				e.checkGhostWrite(st, l.key, h.callPos)
+				// whether the counter really changes is decided after the callee's ensures are known
+				if e.ghostFrameRestricted(l.key) {
+					h.pendingGhost = append(h.pendingGhost, pendingGhostCheck{l.key, e.ghostInt(st, l.key[2:])})
+				}
 				st.Ghost[l.key] = e.fresh("g."+l.key[2:], BV64)
 				if e.disc != nil {
 					e.disc.ghost[l.key] = true
@@ -347,6 +353,7 @@ func (e *Exec) applyHavoc(st *State, h *hctx, fn *ssa.Function, resType types.Ty
 	}
 	e.bumpAlloc(st)
 	res := e.freshVal(st, "r."+h.con.FuncName, resType)
+	e.assumeAllocatedVal(st, res, resType)
 	e.lastResult = res
 	return res
 }
@@ -369,6 +376,14 @@ func (e *Exec) runHarness(st *State, con *Contract, args []*smt.Term, apply bool
 	e.spec--
 	e.hstack = e.hstack[:len(e.hstack)-1]
 	*st = *out
+	// ghost counters the caller's frame does not list must come out unchanged
+	for _, pg := range h.pendingGhost {
+		saveSpec := e.spec
+		e.spec = 0
+		cur := e.ghostInt(st, pg.key[2:])
+		e.check(st, "frame", smt.Eq(cur, pg.old), pos, "")
+		e.spec = saveSpec
+	}
 }
 
 func (e *Exec) applyContract(st *State, con *Contract, args []*smt.Term, resType types.Type, pos token.Pos) *smt.Term {
@@ -448,10 +463,15 @@ func (e *Exec) verifIntrinsic(fr *frame, st *State, name string, fn *ssa.Functio
 			e.spec = 0
 			cl := h.con.Ensures[k]
 			p := token.NoPos
-			e.check(st, "post", args[1], p, clauseLabel(h.con.Ensures, k))
-			if n := len(e.Obls); n > 0 && e.Obls[n-1].Kind == "post" {
-				e.Obls[n-1].Text = cl.Expr
-				e.Obls[n-1].Pos = fmt.Sprintf("%s:%d", strings.TrimPrefix(cl.File, "/repo/"), cl.Line)
+			n0 := len(e.Obls)
+			if len(h.retPaths) >= 2 && len(h.retPaths) <= 12 && smt.HasQuant(args[1]) {
+				e.checkPerReturn(st, "post", args[1], clauseLabel(h.con.Ensures, k), h.retPaths)
+			} else {
+				e.check(st, "post", args[1], p, clauseLabel(h.con.Ensures, k))
+			}
+			for i := n0; i < len(e.Obls); i++ {
+				e.Obls[i].Text = cl.Expr
+				e.Obls[i].Pos = fmt.Sprintf("%s:%d", strings.TrimPrefix(cl.File, "/repo/"), cl.Line)
 			}
 			e.spec = saveSpec
 		}
@@ -676,18 +696,25 @@ func (e *Exec) addFrameLocs(fs *frameSpec, a *smt.Term, t types.Type) {
 }
 
 func (e *Exec) ghostInt(st *State, name string) *smt.Term {
+	if e.ghostNames == nil {
+		e.ghostNames = map[string]bool{}
+	}
+	e.ghostNames[name] = true
 	if v, ok := st.Ghost["G|"+name]; ok {
 		return v
+	}
+	if st.Epoch > 0 {
+		return smt.Var(fmt.Sprintf("g@%d|%s", st.Epoch, name), BV64)
 	}
 	return smt.Var("g0|"+name, BV64)
 }
 
-// checkGhostWrite: a ghost variable may only change if the active frame lists it.
-func (e *Exec) checkGhostWrite(st *State, key string, pos token.Pos) {
+// ghostFrameRestricted: some active frame does not list the ghost variable.
+func (e *Exec) ghostFrameRestricted(key string) bool {
 	for i := len(e.fstack) - 1; i >= 0; i-- {
 		fs := e.fstack[i]
 		if fs == nil {
-			return
+			return false
 		}
 		if fs.all {
 			continue
@@ -699,9 +726,10 @@ func (e *Exec) checkGhostWrite(st *State, key string, pos token.Pos) {
 			}
 		}
 		if !ok {
-			e.check(st, "frame", smt.False, pos, "")
+			return true
 		}
 	}
+	return false
 }
 
 // baseTypeName: the named type inside pointers, as printed in heap keys.
@@ -714,4 +742,16 @@ func baseTypeName(t types.Type) string {
 		break
 	}
 	return types.TypeString(t, nil)
+}
+
+func (e *Exec) assumeAllocatedVal(st *State, v *smt.Term, t types.Type) {
+	if tup, ok := t.(*types.Tuple); ok {
+		if v.Op == "tuple" {
+			for i := 0; i < tup.Len(); i++ {
+				e.assumeAllocatedVal(st, v.Args[i], tup.At(i).Type())
+			}
+		}
+		return
+	}
+	e.assumeAllocated(st, v, t)
 }
